@@ -58,7 +58,7 @@ def inject(rng, seq):
     elif what == "bit":
         raw = bytearray(R.pack(f))
         b = rng.randrange(512)
-        if not (64 <= b < 96):   # keep offset_to_next / memory_size: the file stays well-framed
+        if not (64 <= b < 104):   # keep offset_to_next / memory_size (the file stays well-framed) and the link id (membership of the RDH in its link)
             raw[b // 8] ^= 1 << (b % 8)
             seq[pos] = R.unpack(bytes(raw))
     elif what == "page0":
